@@ -76,6 +76,23 @@ func registerVerif(reg func(string, func(*Interp, []Value) Value)) {
 		ip.Frozen = ip.Epoch
 		return nil
 	})
+	// verifThreads(bodies...): run the bodies as threads under the lock-set monitor (sched.go)
+	reg("verif:verifThreads", func(ip *Interp, a []Value) Value {
+		fs, ok := a[0].(Slice)
+		if !ok {
+			ip.unsupported("verifThreads argument")
+		}
+		s := newSched(ip)
+		ip.W.sched = s
+		for i, f := range fs.A {
+			s.begin(ip, i+1)
+			ip.CallFunc(f)
+			s.end(ip)
+		}
+		s.finish(ip)
+		ip.W.sched = nil
+		return nil
+	})
 	reg("verif:verifThaw", func(ip *Interp, a []Value) Value {
 		ip.Frozen = 0
 		return nil
